@@ -42,6 +42,8 @@ type ExploreStats struct {
 	Divergences  int
 	Horizons     int
 	MaxPoints    int
+	Accesses     int
+	MaxThreads   int
 	PreemptionBound, DeviationBound int
 }
 
@@ -176,6 +178,10 @@ func (e *explorer) explore(prefix []int, sigs []string, pre, dev, sw int) {
 		}
 		if x.Res.Horizon {
 			e.stats.Horizons++
+		}
+		e.stats.Accesses += x.Res.Accesses
+		if x.Res.Threads > e.stats.MaxThreads {
+			e.stats.MaxThreads = x.Res.Threads
 		}
 		e.stats.Outcomes[x.Outcome]++
 		e.report(x)
